@@ -28,4 +28,22 @@ theorem string_single_token (v rest : List Nat) (h : SafeStr v) :
 theorem string_fixpoint (v : List Nat) (h : SafeStr v) : (strD (strE v)).map strE = some (strE v) := by
   rw [string_roundtrip v h]; rfl
 
+/-! `uriE v` is what the serializer writes for a stored URL (`helper.uri`: quoted with `helper.string` iff the value
+contains `( ) , ; ' "` or white space); `uriD` / `uriDTok` are the two readers (`helper.urivalue` for URI tokens in
+property values, `Base._uritokenvalue` for @import / @namespace / unknown rules) after `unicodesub`. -/
+
+/-- T3.1 (URLs, lossless): for EVERY safe stored URL, both readers give the value back from the written form,
+whether `helper.uri` chose the quoted or the unquoted form. -/
+theorem uri_roundtrip (v : List Nat) (h : SafeUri v) : uriD (uriE v) = some v ∧ uriDTok (uriE v) = some v :=
+  uriD_uriE_of_class v h
+
+/-- T3.1 (URLs, one token): the written form of a safe URL is exactly one URI token, whatever text follows. -/
+theorem uri_single_token (v rest : List Nat) (h : SafeUri v) :
+    lexUriPlain (uriE v ++ rest) = some (uriE v).length :=
+  lexUri_uriE_of_class v rest h
+
+/-- T3.1 (URLs, fixpoint) -/
+theorem uri_fixpoint (v : List Nat) (h : SafeUri v) : (uriD (uriE v)).map uriE = some (uriE v) := by
+  rw [(uri_roundtrip v h).1]; rfl
+
 end CssVerif.C03
